@@ -127,6 +127,8 @@ def install(I):
 
     @reg('hasattr')
     def _hasattr(I, a, k):
+        if not isinstance(a[1], str):
+            raise _interp_mod().Unsupported('hasattr with symbolic name')
         return I.hasattr_(a[0], a[1])
 
     @reg('getattr')
@@ -980,8 +982,22 @@ def install_modules(I):
         I_.assume(z3.And(r.t >= 0, r.t * r.t == t))
         return r
 
+    def m_fmod(I_, a, k):
+        # C fmod: x - y * trunc(x / y), the result has the sign of x
+        x, y = a
+        if all(isinstance(v, (int, float)) for v in (x, y)):
+            import math as _mm
+            try:
+                return _mm.fmod(x, y)
+            except ValueError as e:
+                I_.raise_builtin('ValueError', str(e))
+        tx, ty = to_term(x, 'real'), to_term(y, 'real')
+        if I_.branch(ty == 0, 'fmod-domain'):
+            I_.raise_builtin('ValueError', 'math domain error')
+        return mk(tx - ty * z3.ToReal(ops.trunc_real(tx / ty)), 'real')
+
     import math as _m
-    module('math', trunc=mathfn('trunc', m_trunc), floor=mathfn('floor', m_floor), ceil=mathfn('ceil', m_ceil),
+    module('math', fmod=Builtin('math.fmod', m_fmod), trunc=mathfn('trunc', m_trunc), floor=mathfn('floor', m_floor), ceil=mathfn('ceil', m_ceil),
            sqrt=mathfn('sqrt', m_sqrt), sin=mathfn('sin'), cos=mathfn('cos'), tan=mathfn('tan'),
            asin=mathfn('asin'), acos=mathfn('acos'), atan=mathfn('atan'),
            radians=mathfn('radians', lambda I_, x: mk(to_term(x, 'real') * to_term(_m.pi / 180.0, 'real'), 'real')),
